@@ -1,0 +1,82 @@
+//! Verification seams.  Compiled only with `--cfg clarabel_verif`.
+//!
+//! Nothing in this module changes solver behaviour unless a harness installs
+//! a hook: without a clock hook [`SimInstant`] wraps the real
+//! `std::time::Instant`, and without an event hook [`emit`] is a no-op.
+
+#![allow(missing_docs)]
+
+use std::sync::RwLock;
+use std::time::Duration;
+
+/// Events reported to the harness.  They carry no solver state beyond
+/// what is needed to attribute clock reads to timed sections.
+#[derive(Debug, Clone, Copy, PartialEq, Eq)]
+pub enum Event {
+    TimerStart(&'static str),
+    TimerStop,
+    TimerReset(&'static str),
+    SuspendBegin,
+    SuspendEnd,
+    ResumeBegin,
+    ResumeEnd,
+    /// emitted by `DefaultInfo::save_scalars` with the iteration counter
+    Iteration(u32),
+    /// emitted at the top of the three infinity-bound accessors,
+    /// i.e. *before* the atomic access they announce
+    InfGet,
+    InfSet,
+    InfDefault,
+}
+
+type ClockHook = fn() -> u64;
+type EventHook = fn(Event);
+
+static CLOCK_HOOK: RwLock<Option<ClockHook>> = RwLock::new(None);
+static EVENT_HOOK: RwLock<Option<EventHook>> = RwLock::new(None);
+
+/// Install (or remove) the simulated clock.  The hook returns the current
+/// simulated time in nanoseconds and must be monotone.
+pub fn set_clock_hook(hook: Option<ClockHook>) {
+    *CLOCK_HOOK.write().unwrap() = hook;
+}
+
+/// Install (or remove) the event observer.
+pub fn set_event_hook(hook: Option<EventHook>) {
+    *EVENT_HOOK.write().unwrap() = hook;
+}
+
+#[inline]
+pub(crate) fn emit(event: Event) {
+    let hook = *EVENT_HOOK.read().unwrap();
+    if let Some(f) = hook {
+        f(event);
+    }
+}
+
+/// Drop-in replacement for the subset of `std::time::Instant`
+/// that `timers.rs` uses.
+#[derive(Debug, Clone, Copy)]
+pub enum SimInstant {
+    Real(std::time::Instant),
+    Sim(u64),
+}
+
+impl SimInstant {
+    pub fn now() -> Self {
+        let hook = *CLOCK_HOOK.read().unwrap();
+        match hook {
+            Some(f) => SimInstant::Sim(f()),
+            None => SimInstant::Real(std::time::Instant::now()),
+        }
+    }
+
+    pub fn elapsed(&self) -> Duration {
+        match (*self, Self::now()) {
+            (SimInstant::Real(t0), _) => t0.elapsed(),
+            (SimInstant::Sim(t0), SimInstant::Sim(t1)) => Duration::from_nanos(t1.saturating_sub(t0)),
+            // hook removed while a timer was running
+            (SimInstant::Sim(_), SimInstant::Real(_)) => Duration::ZERO,
+        }
+    }
+}
